@@ -3,7 +3,8 @@ CONSTANTS N = 8
           Names = {"", "a", "b"}
           Devs = {}
           InitDags <- AllDags
+          MaxMiss = 0
+          ModeSet = {1, 2, 3, 4, 5, 6, 7}
+          FaultSet = {"none", "cancelled", "cancelFetch"}
           E = 20
-          GenFaults = {"none", "cancelled", "cancelFetch"}
-          GenModes = {1, 2, 3, 4, 5, 6, 7}
           MaxMissing = 2
